@@ -121,6 +121,13 @@ namespace {
                               { { "init", [&](I::Template* n) { n->init = lex.make_mapping(R, ipr::Mapping_level{ 0 }); } },
                                 { "init+result", [&](I::Template* n) { auto* m = lex.make_mapping(R, ipr::Mapping_level{ 0 }); m->body = &c.E(0); n->init = m; } },
                                 { "lexreg", [&](I::Template* n) { n->lexreg = &R; } }, { "home", [&](I::Template* n) { n->decl_data.master_data->home = &R; } } });
+      // a secondary template entered under a name that already names something else (variable / function / primary template)
+      for (int before = 0; before < 3; ++before)
+         subsets<I::Template>(c, before == 0 ? "Template(secondary after a variable of that name)" : before == 1 ? "Template(secondary after a function of that name)" : "Template(secondary after a primary of that name)",
+                              [&] { auto* r = R.make_subregion(); auto& n = fresh();
+                                    if (before == 0) r->declare_var(n, c.T(0)); else if (before == 1) r->declare_fun(n, ft); else r->declare_primary_template(n, fa);
+                                    return r->declare_secondary_template(n, lex.get_forall(c.P(2), lex.class_type())); },
+                              { { "init", [&](I::Template* n) { n->init = lex.make_mapping(R, ipr::Mapping_level{ 0 }); } }, { "lexreg", [&](I::Template* n) { n->lexreg = &R; } } });
       subsets<I::For>(c, "For", [&] { return lex.make_for(); },
                       { { "init", [&](I::For* n) { n->init = &c.E(0); } }, { "cond", [&](I::For* n) { n->cond = &c.E(1); } }, { "inc", [&](I::For* n) { n->inc = &c.E(2); } }, { "stmt", [&](I::For* n) { n->stmt = lex.make_expr_stmt(c.E(0)); } },
                         { "untyped-stmt", [&](I::For* n) { n->stmt = lex.make_return(c.E(1)); } } });
